@@ -204,6 +204,19 @@ def witness_arrays_to_numpy(w):
 # ---------------------------------------------------------------------------------------
 
 
+def _die_with_parent(parent_pid):
+    """pool workers must not outlive a killed driver (they would keep solving for hours)"""
+    import threading
+
+    def watch():
+        while True:
+            time.sleep(2.0)
+            if os.getppid() != parent_pid:
+                os._exit(1)
+
+    threading.Thread(target=watch, daemon=True).start()
+
+
 def _pin_worker(counter):
     """pin each worker process to one CPU: the symbolic runs make millions of small mmap/munmap
     calls (CPython frame-stack chunks); in a multi-threaded process (JAX/XLA/BLAS pools) every
@@ -334,7 +347,7 @@ def run_property(prop_id, tier="quick", seed=0, jobs=None, only=None):
             results[k] = run_task(prop_id, k, tier, seed)
     else:
         ctxm = mp.get_context("spawn")
-        with cf.ProcessPoolExecutor(max_workers=jobs, mp_context=ctxm) as ex:
+        with cf.ProcessPoolExecutor(max_workers=jobs, mp_context=ctxm, initializer=_die_with_parent, initargs=(os.getpid(),)) as ex:
             futs = {ex.submit(run_task, prop_id, k, tier, seed): k for k in keys}
             for f in cf.as_completed(futs):
                 k = futs[f]
